@@ -189,7 +189,10 @@ def run_property(mod, tier: str, seed: int, replay: str | None = None, runs_over
             print("HARNESS-ERROR", p.get("item"), file=sys.stderr)
             print(p.get("error"), file=sys.stderr)
         print(f"harness errors: {len(problems)}", file=sys.stderr)
-        return 2
+        if not any(r["status"] == "violation" for r in results):
+            return 2
+        # some chunks died or hung (a change that breaks the property can also make runs hang), but other runs did
+        # report violations: those are replayable facts and are reported; the exit code can no longer be 0
 
     # determinism
     by_seed: dict = {}
@@ -286,5 +289,8 @@ def run_property(mod, tier: str, seed: int, replay: str | None = None, runs_over
         if alt_rc == 2:
             return 2
     print(f"{prop} {tier}: runs={len(uniq)} nontrivial-distinct={len(digests)} "
-          f"violations={len(new_sigs)} known={len(known_hit)} wall={wall_s:.1f}s")
-    return 1 if (new_sigs or alt_rc == 1) else 0
+          f"violations={len(new_sigs)} known={len(known_hit)} wall={wall_s:.1f}s"
+          + (f" harness-errors={len(problems)}" if problems else ""))
+    if new_sigs or alt_rc == 1:
+        return 1
+    return 2 if problems else 0
